@@ -300,17 +300,7 @@ func c07mObserve(ports [10]int) string {
 	return strings.Join(parts, ";")
 }
 
-func c07mFreePort() int {
-	for i := 0; i < 20000; i++ {
-		p := c07FreePort()
-		ua, _ := net.ResolveUDPAddr("udp", fmt.Sprintf("127.0.0.1:%d", p))
-		if pc, err := net.ListenUDP("udp", ua); err == nil {
-			pc.Close()
-			return p
-		}
-	}
-	panic("no free port")
-}
+func c07mFreePort() int { return c07Ports.reserve(true) }
 
 func c07mEval(f []string) (string, []string) {
 	casket.Stop()
@@ -342,6 +332,7 @@ func c07mEval(f []string) (string, []string) {
 		return "bad-case", nil
 	}
 	var ports [10]int
+	c07Ports.release()
 	for a := 1; a <= 3; a++ {
 		ports[a] = c07mFreePort()
 	}
